@@ -34,7 +34,7 @@ from explorerscript.ssb_converting.compiler.compile_handlers.blocks.switches.def
 from explorerscript.ssb_converting.compiler.compile_handlers.blocks.switches.switch_header import (
     SwitchHeaderCompileHandler,
 )
-from explorerscript.ssb_converting.compiler.utils import CompilerCtx, SsbLabelJumpBlueprint
+from explorerscript.ssb_converting.compiler.utils import CompilerCtx, SsbLabelJumpBlueprint, does_op_end_control_flow
 from explorerscript.ssb_converting.ssb_data_types import SsbOperation
 from explorerscript.ssb_converting.ssb_special_ops import (
     SsbLabel,
@@ -105,13 +105,20 @@ class SwitchBlockCompileHandler(
             default_ops = [self._generate_jump_operation(OP_JUMP, [], end_label)]
         # 3. For each case:
         cases_waiting_for_a_block = []
+        previous_block_falls_through = False
         for i, h in enumerate(self._case_handlers):
             if not h.has_sub_block_handlers():
                 # 3b. Else: Jump to the block of the next case which has a block.
                 cases_waiting_for_a_block.append(h)
             else:
                 # 3a. If the case has operations: Collect case sub-block ops
+                # If the previous block falls through into this block, this block has to keep all of it's operations.
+                h.allow_single_jump_shortcut = not previous_block_falls_through
                 ops = h.collect()
+                previous_block_falls_through = len(ops) > 1 and (
+                    isinstance(ops[-2], SsbLabel)
+                    or not does_op_end_control_flow(ops[-2], ops[-3] if len(ops) > 2 else None)
+                )
                 start_label = h.get_start_label()
                 assert start_label is not None
                 if isinstance(h, DefaultCaseBlockCompileHandler):
